@@ -250,6 +250,8 @@
 // Platform-independent modules (available on all platforms)
 // ============================================================================
 pub mod config;
+#[cfg(feature = "verif-hooks")]
+pub mod verif_hooks;
 pub mod error;
 pub mod game_optimized;
 pub mod key;
